@@ -285,6 +285,10 @@ class MrAndersonSimulator(object):
             chunksize = max(1, int(shots / n_processes) + (1 if shots % n_processes > 0 else 0))
             print(f"As we perform {shots} shots, we use a chunksize of {chunksize}.")
 
+            # Forked workers inherit the parent's generator state, so every shot gets its own seed.
+            for arg in arg_list:
+                arg["seed"] = np.random.randint(0, 2**32, size=4, dtype=np.uint32)
+
             # Compute
             p = multiprocessing.Pool(n_processes)
             for shot_result in p.imap_unordered(func=_single_shot, iterable=arg_list, chunksize=chunksize):
@@ -497,6 +501,10 @@ def _single_shot(args: dict) -> np.array:
     device_param = args["device_param"]
     psi0 = args["psi0"]
     qubit_layout = args["qubit_layout"]
+
+    # Reseed when the caller provided a shot specific seed (parallel mode).
+    if "seed" in args:
+        np.random.seed(args["seed"])
 
     # Apply gates on the circuit.
     _apply_gates_on_circuit(data, circ, device_param, qubit_layout)
